@@ -18,6 +18,8 @@ import LfsModel.Hooks
 import LfsModel.Track
 import LfsModel.PushModel
 import LfsModel.Gen
+import LfsModel.GenApi
+import LfsModel.ApiReq
 open Lfs
 
 namespace Oracle
@@ -355,6 +357,79 @@ def c03 : List String → String
     | _, _ => "bad-op"
   | _ => "bad-op"
 
+/-! ### C18 -/
+def strOfHex (h : String) : Option String := (unhex h).bind fun b => String.fromUTF8? (ByteArray.mk b.toArray)
+
+/-- parser of the canonical JSON text (`Api.render`'s format): the harness sends captured bodies in it -/
+partial def parseJ : List Char → Option (Api.J × List Char)
+  | 'n' :: 'u' :: 'l' :: 'l' :: r => some (.null, r)
+  | 't' :: 'r' :: 'u' :: 'e' :: r => some (.bool true, r)
+  | 'f' :: 'a' :: 'l' :: 's' :: 'e' :: r => some (.bool false, r)
+  | 's' :: r =>
+    let h := r.takeWhile fun c => (hexVal c).isSome
+    (strOfHex (if h.isEmpty then "-" else String.ofList h)).map fun v => (.str v, r.drop h.length)
+  | '[' :: ']' :: r => some (.arr .nil, r)
+  | '[' :: r =>
+    let rec items (cs : List Char) (acc : List Api.J) : Option (List Api.J × List Char) :=
+      match parseJ cs with
+      | some (v, ',' :: r') => items r' (v :: acc)
+      | some (v, ']' :: r') => some ((v :: acc).reverse, r')
+      | _ => none
+    (items r []).map fun (l, r') => (.arr (Api.JList.ofList l), r')
+  | '{' :: '}' :: r => some (.obj .nil, r)
+  | '{' :: r =>
+    let rec members (cs : List Char) (acc : List (String × Api.J)) : Option (List (String × Api.J) × List Char) :=
+      let h := cs.takeWhile fun c => (hexVal c).isSome
+      match strOfHex (if h.isEmpty then "-" else String.ofList h), cs.drop h.length with
+      | some k, ':' :: r1 =>
+        (match parseJ r1 with
+         | some (v, ',' :: r') => members r' ((k, v) :: acc)
+         | some (v, '}' :: r') => some (((k, v) :: acc).reverse, r')
+         | _ => none)
+      | _, _ => none
+    (members r []).map fun (l, r') => (.obj (Api.JObj.ofList l), r')
+  | cs =>
+    let neg := cs.head? == some '-'
+    let ds := (if neg then cs.drop 1 else cs).takeWhile Char.isDigit
+    if ds.isEmpty then none else
+    let n : Int := (String.ofList ds).toNat!
+    some (.num (if neg then -n else n), (if neg then cs.drop 1 else cs).drop ds.length)
+
+def schemaByName : String → Option Api.Sch
+  | "batch" => some Gen.batchRequestSchema
+  | "lock-create" => some Gen.lockCreateRequestSchema
+  | "lock-delete" => some Gen.lockDeleteRequestSchema
+  | "lock-verify" => some ApiReq.lockVerifyRequestDoc
+  | "verify" => some ApiReq.objectVerifyRequestDoc
+  | _ => none
+
+def parseObj (s : String) : Option ApiReq.Obj :=
+  match s.splitOn ":" with
+  | [o, n] => do let o ← strOfHex o; let n ← n.toInt?; pure ⟨o, n⟩
+  | _ => none
+
+def c18 : List String → String
+  | ["batch", op, objs, ads, ref] =>
+    (match strOfHex op, (if objs == "-" then some [] else (objs.splitOn ",").mapM parseObj),
+           (if ads == "-" then some [] else (ads.splitOn ",").mapM strOfHex), strOfHex ref with
+     | some op, some objs, some ads, some ref =>
+       let r : ApiReq.BatchIn := ⟨op, objs, ads, ref⟩
+       if ApiReq.batchSends r then Api.render (ApiReq.encBatch r) else "no-request"
+     | _, _, _, _ => "bad-op")
+  | ["lock", path, ref] => (match strOfHex path, strOfHex ref with
+     | some p, some r => Api.render (ApiReq.encLock p r) | _, _ => "bad-op")
+  | ["unlock", f, ref] => (match strOfHex ref with
+     | some r => Api.render (ApiReq.encUnlock (f == "1") r) | _ => "bad-op")
+  | ["lockverify", ref, cur, lim] => (match strOfHex ref, strOfHex cur, lim.toInt? with
+     | some r, some c, some l => Api.render (ApiReq.encLockVerify r c l) | _, _, _ => "bad-op")
+  | ["verify", o] => (match parseObj o with | some o => Api.render (ApiReq.encVerify o) | none => "bad-op")
+  | ["hashalgo", a] => (match strOfHex a with
+     | some a => if ApiReq.acceptsHashAlgo a then "accept" else "reject" | none => "bad-op")
+  | ["validate", sch, body] => (match schemaByName sch, parseJ body.toList with
+     | some s, some (j, []) => if Api.validate s j then "valid" else "invalid"
+     | _, _ => "bad-op")
+  | _ => "bad-op"
+
 def answer (line : String) : String :=
   match line.splitOn " " with
   | "C07" :: rest => c07 rest
@@ -370,6 +445,7 @@ def answer (line : String) : String :=
   | "C19" :: rest => c19 rest
   | "C03" :: rest => c03 rest
   | "C15" :: rest => c15 rest
+  | "C18" :: rest => c18 rest
   | _ => "bad-op"
 
 partial def loop (h : IO.FS.Stream) (out : IO.FS.Stream) : IO Unit := do
